@@ -188,6 +188,9 @@ func MeasureClockOffsetSCION(ctx context.Context, log *slog.Logger,
 						slog.Any("via", snet.Fingerprint(p).String()),
 						slog.Any("error", e),
 					)
+					// See MeasureClockOffsetIP: an unchanged interleaved request
+					// would also match a late response to the failed attempt.
+					ntpc.ResetInterleavedMode()
 				}
 			}
 			msc <- measurements.Measurement{
